@@ -82,13 +82,21 @@ Qed.
 
 (** ** pod-IP sync *)
 
-(** one AllocateSpecificIP for the informer's object [p] *)
+(** the object handed to the pod-IP sync is the informer's current one up to its UID: the informer shows no pod of that
+    name, or one with the object's UID *)
+Definition sync_obj_ok (w : world) (p : pod) : Prop :=
+  wf_pod p ∧ ∀ l, w_lister w !! pk p = Some l → pd_uid l = pd_uid p.
+
+Lemma sync_obj_ok_current w p : WInv w → w_lister w !! pk p = Some p → sync_obj_ok w p.
+Proof. intros HW Hl. split; [by apply (wi_lister _ HW _ p Hl)|]. intros l Hl'. rewrite Hl in Hl'. by injection Hl' as <-. Qed.
+
+(** one AllocateSpecificIP for such an object [p] *)
 Lemma winv_sync_alloc w p x node fail :
-  WInv w → w_lister w !! pk p = Some p →
+  WInv w → sync_obj_ok w p →
   WInv (set_ipam w (alloc_specific (w_ipam w) (pod_key p) x
                       {| a_policy := policy_of p; a_node := node; a_uid := pd_uid p |} fail).1).
 Proof.
-  intros HW Hl. apply winv_set_ipam; [done|apply inv2_alloc_specific, HW|].
+  intros HW [Hwp Hl]. apply winv_set_ipam; [done|apply inv2_alloc_specific, HW|].
   intros k q Hq Hlive. pose proof (wi_owned _ HW k q Hq Hlive) as Ho.
   destruct (alloc_specific _ _ _ _ _) as [s' r] eqn:E. simpl.
   apply alloc_specific_spec in E as [(_ & Hx & Ha & _ & _)|(_ & ->)]; [|done].
@@ -98,15 +106,18 @@ Proof.
   - intros y e He _. rewrite Ha. rewrite lookup_insert_ne; [done|]. intros <-. by rewrite Hnone in He.
   - intros y e'. rewrite Ha. destruct (decide (y = x)) as [->|Hne].
     + rewrite lookup_insert. intros [= <-]. simpl. intros Hk. right. right.
-      destruct (wi_pods _ HW k q Hq) as [Hpk Hwq]. destruct (wi_lister _ HW _ p Hl) as [_ Hwp].
+      destruct (wi_pods _ HW k q Hq) as [Hpk Hwq].
       assert (Hkk : pk p = k). { rewrite <- Hpk. by apply pod_key_inj. }
       destruct Hlive as [_ Hips]. destruct (wi_seen _ HW k q Hq Hips) as (l & Hl' & Hu).
-      rewrite <- Hkk, Hl in Hl'. by injection Hl' as <-.
+      rewrite <- Hkk in Hl'. by rewrite <- (Hl l Hl').
     + rewrite lookup_insert_ne by done. intros He' _. by left.
 Qed.
 
-Lemma winv_sync_ips p fl : ∀ ips idx w,
-  WInv w → w_lister w !! pk p = Some p → WInv (sync_ips w p ips fl idx).
+Lemma sync_obj_ok_set_ipam w i p : sync_obj_ok w p → sync_obj_ok (set_ipam w i) p.
+Proof. done. Qed.
+
+Lemma winv_sync_ips_obj p fl : ∀ ips idx w,
+  WInv w → sync_obj_ok w p → WInv (sync_ips w p ips fl idx).
 Proof.
   induction ips as [|x rest IH]; intros idx w HW Hl; [done|]. cbn [sync_ips].
   destruct (by_ip (w_ipam w) x) as [e|] eqn:Eb; [|by apply IH].
@@ -114,16 +125,50 @@ Proof.
   apply IH; [|done]. by apply winv_sync_alloc.
 Qed.
 
-Lemma winv_sync_pod_ip w p fl : WInv w → w_lister w !! pk p = Some p → WInv (sync_pod_ip w p fl).
+Lemma winv_sync_pod_ip_obj w p fl : WInv w → sync_obj_ok w p → WInv (sync_pod_ip w p fl).
 Proof.
-  intros HW Hl. unfold sync_pod_ip. destruct (pd_phase p =? 1); [|done]. by apply winv_sync_ips.
+  intros HW Hl. unfold sync_pod_ip. destruct (pd_phase p =? 1); [|done]. by apply winv_sync_ips_obj.
 Qed.
 
-Lemma winv_sync_pod w key fl : WInv w → WInv (pstep w (PSyncPod key fl)).1.
+Lemma winv_sync_ips p fl ips idx w : WInv w → w_lister w !! pk p = Some p → WInv (sync_ips w p ips fl idx).
+Proof. intros HW Hl. apply winv_sync_ips_obj; [done|by apply sync_obj_ok_current]. Qed.
+
+Lemma winv_sync_pod_ip w p fl : WInv w → w_lister w !! pk p = Some p → WInv (sync_pod_ip w p fl).
+Proof. intros HW Hl. apply winv_sync_pod_ip_obj; [done|by apply sync_obj_ok_current]. Qed.
+
+(** pod-IP sync with ANY pod object [p] (F16, repaired): an object whose UID is not the one the informer shows now is
+    skipped, otherwise the informer's current object is synced; a pod the informer does not show is synced as given - a
+    live bound pod of that name would be shown ([wi_seen]), so there is none *)
+Lemma winv_sync_given w p fl : WInv w → wf_pod p → WInv (sync_given true w p fl).
 Proof.
-  intros HW. cbn [pstep]. destruct (w_lister w !! key) as [p|] eqn:El; [|done]. simpl.
-  apply winv_sync_pod_ip; [done|]. destruct (wi_lister _ HW key p El) as [-> _]. done.
+  intros HW Hwp. unfold sync_given. destruct (w_lister w !! pk p) as [cur|] eqn:El.
+  - destruct (str_eqb (pd_uid cur) (pd_uid p)); [|done].
+    apply winv_sync_pod_ip; [done|]. destruct (wi_lister _ HW _ cur El) as [-> _]. done.
+  - apply winv_sync_pod_ip_obj; [done|]. split; [done|]. intros l Hl. by rewrite El in Hl.
 Qed.
+
+(** the object a pod-IP sync handed [p] works with, if any *)
+Definition synced_obj (w : world) (p : pod) : option pod :=
+  match w_lister w !! pk p with
+  | Some cur => if str_eqb (pd_uid cur) (pd_uid p) then Some cur else None
+  | None => Some p
+  end.
+
+Lemma sync_given_obj w p fl :
+  sync_given true w p fl = match synced_obj w p with Some l => sync_pod_ip w l fl | None => w end.
+Proof. unfold sync_given, synced_obj. destruct (w_lister w !! pk p) as [cur|]; [|done]. by destruct (str_eqb _ _). Qed.
+
+Lemma synced_obj_current w p : w_lister w !! pk p = Some p → synced_obj w p = Some p.
+Proof. intros E. unfold synced_obj. rewrite E. by destruct (str_eqb_spec (pd_uid p) (pd_uid p)). Qed.
+
+Lemma synced_obj_wf w p l : WInv w → wf_pod p → synced_obj w p = Some l → wf_pod l.
+Proof.
+  intros HW Wp. unfold synced_obj. destruct (w_lister w !! pk p) as [cur|] eqn:El; [|by intros [= <-]].
+  destruct (str_eqb _ _); [|done]. intros [= <-]. by apply (wi_lister _ HW _ cur El).
+Qed.
+
+Lemma winv_sync_pod w p fl : WInv w → wf_op w (PSyncPod p fl) → WInv (pstep w (PSyncPod p fl)).1.
+Proof. intros HW Hwf. cbn [pstep fst]. by apply winv_sync_given. Qed.
 
 (** ** the environment *)
 
